@@ -370,7 +370,6 @@ var extras = []freeCall{
 	{Name: `Offset(1)`, Apply: func(db, _ *gorm.DB, _ modelKind) *gorm.DB { return db.Offset(1) }},
 	{Name: `Group("id")`, Apply: func(db, _ *gorm.DB, _ modelKind) *gorm.DB { return db.Group("id") }},
 	{Name: `Set("k",1)`, Apply: func(db, _ *gorm.DB, _ modelKind) *gorm.DB { return db.Set("k", 1) }},
-	{Name: `Preload("Nope")`, Apply: func(db, _ *gorm.DB, _ modelKind) *gorm.DB { return db.Preload("Nope") }},
 }
 
 // allCalls = alphabet + weakCalls + extras (lookup only; the full enumeration runs over alphabet)
@@ -400,7 +399,7 @@ type finisher struct {
 	OffOnly bool
 	// Short: enumerated one call shorter than the others (keeps the quick tier small)
 	Short bool
-	Run     func(db *gorm.DB, m modelKind, key int) *gorm.DB // key: primary key of the model value (0 = none)
+	Run   func(db *gorm.DB, m modelKind, key int) *gorm.DB // key: primary key of the model value (0 = none)
 }
 
 var finishers = []finisher{
@@ -425,18 +424,24 @@ var finishers = []finisher{
 		return db.Model(m.Keyed(k)).UpdateColumns(m.MarkedKeyed(2, false))
 	}},
 	// other forms of the model value
-	{Name: `Model(T{}).Update("mark",7)`, Short: true, Run: func(db *gorm.DB, m modelKind, k int) *gorm.DB {
+	// Model(T{}) (not a pointer): only with AllowGlobalUpdate off - once such a statement
+	// executes with a RETURNING clause the update callback panics (ReflectValue.Addr of
+	// an unaddressable value, callbacks/update.go), which is not this property's subject
+	{Name: `Model(T{}).Update("mark",7)`, Short: true, OffOnly: true, Run: func(db *gorm.DB, m modelKind, k int) *gorm.DB {
 		return db.Model(reflect.ValueOf(m.Keyed(k)).Elem().Interface()).Update("mark", 7)
 	}},
 	{Name: `Model(&[]T{{},{}}).Update("mark",7)`, Short: true, Run: func(db *gorm.DB, m modelKind, k int) *gorm.DB {
-		return db.Model(m.Slice(k, 0)).Update("mark", 7)
+		if k != 0 {
+			// fully keyed: with only some elements keyed gorm looks at the last element
+			// alone to decide whether the slice carries keys (undocumented either way)
+			return db.Model(m.Slice(k, k)).Update("mark", 7)
+		}
+		return db.Model(m.Slice(0, 0)).Update("mark", 7)
 	}},
 	{Name: `Table(t).Update("mark",7)`, Short: true, OffOnly: true, Run: func(db *gorm.DB, m modelKind, k int) *gorm.DB {
 		return db.Session(&gorm.Session{NewDB: true}).Table(m.Spec.Name).Update("mark", 7)
 	}},
-	{Name: `Delete(T{})`, Delete: true, Short: true, Run: func(db *gorm.DB, m modelKind, k int) *gorm.DB {
-		return db.Delete(reflect.ValueOf(m.Keyed(k)).Elem().Interface())
-	}},
+	// (Delete(T{}) - a non-pointer value - is refused with ErrInvalidValue before anything is built)
 	{Name: `Delete(&T{},nil)`, Delete: true, Short: true, Run: func(db *gorm.DB, m modelKind, k int) *gorm.DB { return db.Delete(m.Keyed(k), nil) }},
 	{Name: `Delete(&T{},&T{})`, Delete: true, Short: true, Run: func(db *gorm.DB, m modelKind, k int) *gorm.DB {
 		return db.Delete(m.Keyed(k), m.Zero())
@@ -899,8 +904,11 @@ func TestC09Exhaustive(t *testing.T) {
 	// nothing would roll a wrongly sent statement back
 	var sdtRec func(prefix []string)
 	sdtRec = func(prefix []string) {
-		for _, mn := range []string{"plain", "soft", "soft2", "appkey-soft", "compkey"} {
+		for _, mn := range []string{"plain", "soft", "appkey-soft"} {
 			for _, sdt := range sdtModes[1:] {
+				if sdt == "QueryFields" {
+					continue // no bearing on update / delete statements: random part only
+				}
 				for _, f := range finishers {
 					n++
 					if n%shards != shard {
@@ -970,15 +978,19 @@ func TestC09Exhaustive(t *testing.T) {
 	}
 	// the extra condition-free calls: alone and next to one partner call
 	var extraChains [][]string
+	extraPartners := partners
+	if maxLen < 3 {
+		extraPartners = []string{`Where("")`, `Unscoped()`, `Model(&T{})`, `Clauses(Returning{})`}
+	}
 	for _, e := range extras {
 		extraChains = append(extraChains, []string{e.Name})
-		for _, pn := range partners {
+		for _, pn := range extraPartners {
 			extraChains = append(extraChains, []string{e.Name, pn}, []string{pn, e.Name})
 		}
 	}
 	for _, mn := range []string{"plain", "soft", "soft2", "appkey"} {
 		for _, agu := range []string{"off", "config"} {
-			if agu != "off" && !basicModel(mn) {
+			if agu != "off" && (!basicModel(mn) || maxLen < 3) {
 				continue
 			}
 			for _, chain := range extraChains {
@@ -1061,8 +1073,19 @@ func TestC09Random(t *testing.T) {
 		x := cond.G(rt)
 		c := Case{Model: modelNames[x.N(len(modelNames))], AGU: aguModes[x.N(3)], Fin: finishers[x.N(len(finishers))].Name}
 		pool := append(append([]freeCall{}, alphabet...), extras...)
+		seenUnscoped := false
 		for k := 3 + x.N(5); k > 0; k-- {
-			c.Calls = append(c.Calls, pool[x.N(len(pool))].Name)
+			name := pool[x.N(len(pool))].Name
+			if name == "Unscoped()" {
+				seenUnscoped = true
+			}
+			if name == "Session{NewDB}" && seenUnscoped {
+				// whether Unscoped survives Session{NewDB} depends on the next call (another
+				// Session / WithContext turns the handle back into a clone of the unscoped
+				// statement): undocumented, not generated
+				name = "WithContext(ctx)"
+			}
+			c.Calls = append(c.Calls, name)
 		}
 		if finishers[finIndex[c.Fin]].OffOnly {
 			c.AGU = "off"
@@ -1073,13 +1096,18 @@ func TestC09Random(t *testing.T) {
 				c.AGU = "off" // with AllowGlobalUpdate a dry run executes nothing either: no row to look at
 			}
 		}
-		if x.Pct(45) {
-			// used chain value: part of the calls go before the preparing operation
+		if x.Pct(45) && c.SDT != "DryRun" {
+			// used chain value (not in a dry run: Raw().Scan() is unsupported there): part of the calls go before the preparing operation
 			c.AGU = "off"
 			c.Prime = primes[x.N(len(primes))].Name
 			c.Derive = derives[x.N(len(derives))].Name
 			k := x.N(len(c.Calls) + 1)
 			c.Pre, c.Calls = c.Calls[:k:k], c.Calls[k:]
+			for i, name := range c.Pre {
+				if name == "Session{NewDB}" {
+					c.Pre[i] = "WithContext(ctx)" // a new statement would lose the Model the preparing operation needs
+				}
+			}
 			for _, name := range c.Pre {
 				// with Select("mark") an all-zero struct is no longer an empty
 				// update (it sets mark = 0): not a condition-free preparation
@@ -1088,7 +1116,7 @@ func TestC09Random(t *testing.T) {
 				}
 			}
 		}
-		if x.Pct(15) {
+		if x.Pct(15) && c.SDT != "DryRun" {
 			// an expression-less WHERE clause somewhere in the chain (behind the preparing operation, which it would make fail)
 			c.AGU = "off"
 			k := x.N(len(c.Calls) + 1)
